@@ -677,17 +677,35 @@ func (c *ctx) checkSub(op string, sub graph.Subgraph, under graph.Graph, nodes [
 		nm := sub.NodeMap(func(node int) interface{} { return node*7 + 1 })
 		em := sub.EdgeMap(func(node, edge int) interface{} { return [2]int{node, edge} })
 		for i := range nodes {
-			if got := sub.Out(i); !refmodel.SameSeq(got, wantOut[i]) {
+			got := sub.Out(i)
+			if !refmodel.SameMultiset(got, wantOut[i]) {
 				c.fail("subgraph", op, "out", "Out(%d)=%v, the requested subgraph has %v (node %d of the original)", i, head(got), head(wantOut[i]), nodes[i])
 				return
 			}
-			if got := nm(i); got != nodes[i]*7+1 {
-				c.fail("subgraph", op, "nodemap", "NodeMap translates node %d to original %v, want %d", i, got, nodes[i])
+			if g := nm(i); g != nodes[i]*7+1 {
+				c.fail("subgraph", op, "nodemap", "NodeMap translates node %d to original %v, want %d", i, g, nodes[i])
 				return
 			}
-			for e := range wantOut[i] {
-				if got := em(i, e); got != [2]int{nodes[i], wantOld[i][e]} {
-					c.fail("subgraph", op, "edgemap", "EdgeMap translates edge %d of node %d to original %v, want node %d edge %d", e, i, got, nodes[i], wantOld[i][e])
+			// the order of a node's edges is not fixed by the statement; what is
+			// fixed is that EdgeMap names, for every new edge, an original edge of
+			// the same node that was kept, each exactly once, and that the new
+			// edge's target is the image of that original edge's target
+			used := make([]bool, len(wantOld[i]))
+			for e := range got {
+				oe, ok := em(i, e).([2]int)
+				if !ok || oe[0] != nodes[i] {
+					c.fail("subgraph", op, "edgemap", "EdgeMap translates edge %d of node %d to %v, which is not an edge of original node %d", e, i, em(i, e), nodes[i])
+					return
+				}
+				found := false
+				for k, old := range wantOld[i] {
+					if !used[k] && old == oe[1] && wantOut[i][k] == got[e] {
+						used[k], found = true, true
+						break
+					}
+				}
+				if !found {
+					c.fail("subgraph", op, "edgemap", "EdgeMap translates edge %d of node %d (to new node %d) to original node %d edge %d, which is not a kept edge with that target (kept original edges %v with new targets %v)", e, i, got[e], oe[0], oe[1], head(wantOld[i]), head(wantOut[i]))
 					return
 				}
 			}
